@@ -133,6 +133,23 @@ def _k(v):
 
 def call_ext(I, st, f, args, kw, frame, node):
     name = f.name
+    if name in ('json.dumps', 'json.dump') and kw.get('allow_nan') is False:
+        # strict JSON: raises ValueError for NaN / Infinity anywhere in the value
+        where = (frame.qual(), getattr(node, 'lineno', 0))
+        s2 = st.clone()
+        I.stats['forks'] += 1
+        s2.ev('partial', 'json-strict', frame.qual(), name, getattr(node, 'lineno', 0))
+        return [(st, _opaque_result(st, name, args, kw, frame, node)),
+                (s2, Raised('ValueError', 'Out of range float values are not JSON compliant', where))]
+    if name.endswith('.quantize') or name == 'quantize':
+        # decimal.Decimal.quantize raises InvalidOperation when the result needs more digits than the context precision (28):
+        # a partial operation like a division
+        where = (frame.qual(), getattr(node, 'lineno', 0))
+        s2 = st.clone()
+        I.stats['forks'] += 1
+        s2.ev('partial', 'quantize', frame.qual(), _norm(node) if node is not None else 'quantize', getattr(node, 'lineno', 0))
+        return [(st, _opaque_result(st, name, args, kw, frame, node)),
+                (s2, Raised('InvalidOperation', 'Decimal.quantize: the value needs more digits than the decimal context allows', where))]
     where = (frame.qual(), node.lineno)
     h = I.ext_handlers.get(name)
     if h is not None:
@@ -315,6 +332,19 @@ def _call_builtin(I, st, f, name, args, kw, frame, node, where):
         return [(st, IterV([Star('range(%s)' % ','.join(_k(a) for a in args), '@num')], 'range'))]
     if name == 'isinstance':
         return isinstance_value(I, st, args[0], args[1], frame)
+    if name == 'setattr' and len(args) == 3:
+        o, nm, val = args
+        if not isinstance(nm, Str) or not isinstance(o, Obj):
+            raise Unsupported('setattr with a non-constant name / unknown object in %s' % frame.qual())
+        tgt = ast.Attribute(value=ast.Name(id='@setattr_obj', ctx=ast.Load()), attr=nm.s, ctx=ast.Store())
+        ast.copy_location(tgt, node)
+        ast.fix_missing_locations(tgt)
+        out = []
+        for (s2, e2, oc) in I.assign(st, {'@setattr_obj': o}, tgt, val, frame):
+            out.append((s2, oc[1] if oc is not None and oc[0] == 'raise' else NONE))
+        return out
+    if name == 'id' and len(args) == 1:
+        return [(st, Opaque('id(%s)' % _k(args[0])))]
     if name == 'getattr':
         from .exprs import getattr_value
         o, nm = args[0], args[1]
@@ -441,6 +471,26 @@ def _call_builtin(I, st, f, name, args, kw, frame, node, where):
     if name == 'time.time':
         return [(st, I.symbol('time.time()', POS, kind='clock'))]
     if name in ('copy.deepcopy', 'copy.copy'):
+        v0 = args[0]
+        if isinstance(v0, Obj) and st.cls.get(v0.oid) in I.m.classes:
+            hook = '__deepcopy__' if name == 'copy.deepcopy' else '__copy__'
+            c0, fn0 = I.m.lookup(st.cls[v0.oid], hook)
+            if fn0 is not None:
+                # the class customises the copy protocol: what the copy looks like is whatever that method builds
+                st.ev('custom-copy', hook, v0.oid, frame.qual())
+                hargs = []
+                if hook == '__deepcopy__':
+                    memo = args[1] if len(args) > 1 else None
+                    if memo is None:
+                        moid = st.new_oid('dict', 'memo')
+                        st.maps[moid] = ()
+                        st.flags.add(('fresh', moid))
+                        memo = Obj(moid)
+                    hargs = [memo]
+                return I.run_fn(st, c0, I.m.classes[c0].module, fn0, v0, hargs, {}, frame.depth + 1, node)
+            for other in ('__reduce__', '__reduce_ex__', '__getstate__', '__setstate__', '__getnewargs__'):
+                if I.m.lookup(st.cls[v0.oid], other)[1] is not None:
+                    raise Unsupported('%s customises copying through %s (not modelled)' % (st.cls[v0.oid], other))
         return [(st, copy_object(I, st, args[0], name == 'copy.deepcopy', frame, node))]
     if name in ('OrderedDict', 'collections.OrderedDict') or name.endswith('.OrderedDict') or (name == 'dict' and args and not kw and not (
             isinstance(args[0], Obj) and args[0].oid in st.maps)):
@@ -704,8 +754,29 @@ def str_method(I, st, recv, meth, args, kw, frame, node):
     return out
 
 
+def note_text_conversion(I, st, values, frame):
+    """an object of the package turned into text right here (format / % / f-string / str()) runs its __repr__ / __str__ -
+    code that may raise; logging calls with lazy arguments do not come here"""
+    for v in values:
+        if isinstance(v, Obj) and st.cls.get(v.oid) in I.m.classes:
+            cls = st.cls[v.oid]
+            for hook in ('__format__', '__str__', '__repr__'):
+                c, fn = I.m.lookup(cls, hook)
+                if fn is not None:
+                    # run the hook on a scratch copy of the state: only a conversion that can raise matters
+                    try:
+                        res = I.run_fn(st.clone(), c, I.m.classes[c].module, fn, v, [], {}, frame.depth + 1)
+                    except (Unsupported, AnalysisError):
+                        res = [(st, Raised('?', 'not analysable', None))]
+                    bad = [r for (_s, r) in res if isinstance(r, Raised)]
+                    if bad:
+                        st.ev('obj-to-text', cls, '%s.%s' % (c, hook), frame.qual(), bad[0].exc)
+                    break
+
+
 def _str_method(I, st, recv, meth, args, kw, frame, node, where):
     if meth == 'format':
+        note_text_conversion(I, st, list(args) + list(kw.values()), frame)
         if isinstance(recv, Str):
             return [(st, format_string(recv.s, args, kw))]
         return [(st, SStr('format(%s)' % _k(recv), deps_of(recv)))]
